@@ -235,7 +235,7 @@ private:
             // @todo: For now we're reading the whole scanline which is
             // slightly inefficient. Later versions should try to read
             // only the bytes which are necessary.
-            this->_io_dev.read( &row.front(), row.size() );
+            this->_io_dev.read_exact( &row.front(), row.size() );
             this->_cc_policy.read( beg, end, view.row_begin(y) );
         }
     }
@@ -276,7 +276,7 @@ private:
 
                 // Write the next chunk_length pixels directly
                 size_t pixels_written = chunk_length * bytes_per_pixel;
-                this->_io_dev.read( &image_data[pixel], pixels_written );
+                this->_io_dev.read_exact( &image_data[pixel], pixels_written );
                 pixel += pixels_written;
             }
         }
